@@ -405,7 +405,7 @@ func (b *backend) PropFind(r *http.Request, propfind *internal.PropFind, depth i
 
 	switch resType {
 	case resourceTypeRoot:
-		resp, err := b.propFindRoot(r.Context(), propfind)
+		resp, err := b.propFindRoot(r.Context(), r.URL.Path, propfind)
 		if err != nil {
 			return nil, err
 		}
@@ -489,7 +489,7 @@ func (b *backend) PropFind(r *http.Request, propfind *internal.PropFind, depth i
 	return internal.NewMultiStatus(resps...), nil
 }
 
-func (b *backend) propFindRoot(ctx context.Context, propfind *internal.PropFind) (*internal.Response, error) {
+func (b *backend) propFindRoot(ctx context.Context, path string, propfind *internal.PropFind) (*internal.Response, error) {
 	principalPath, err := b.Backend.CurrentUserPrincipal(ctx)
 	if err != nil {
 		return nil, err
@@ -501,7 +501,7 @@ func (b *backend) propFindRoot(ctx context.Context, propfind *internal.PropFind)
 		}),
 		internal.ResourceTypeName: internal.PropFindValue(internal.NewResourceType(internal.CollectionName)),
 	}
-	return internal.NewPropFindResponse(principalPath, propfind, props)
+	return internal.NewPropFindResponse(path, propfind, props)
 }
 
 func (b *backend) propFindUserPrincipal(ctx context.Context, propfind *internal.PropFind) (*internal.Response, error) {
